@@ -71,6 +71,14 @@ Theorem C06_width : forall i e l, length (grid_set i e l) = Nat.max (S i) (lengt
 Proof. exact grid_set_length. Qed.
 Print Assumptions C06_width.
 
+(* UserDefined(name, from_document=doc): the field carries the value of the document's metadata entry of that name, for EVERY value
+   of the domain (False, 0, "", timedelta(0) included): stored in the metadata, read as Meta reads it, written through
+   set_value_and_type with the entry's type, read back from the field *)
+Theorem C06_from_document : forall v me, in_domain_for SetMeta v = true -> model_set SetMeta v = Ok me ->
+  exists e r, set_ud_from_doc (Some me) None VNone = Ok e /\ get_et e = Ok r /\ same_value v r = true.
+Proof. exact from_document_lemma. Qed.
+Print Assumptions C06_from_document.
+
 (* CPython's Decimal(str(d)) == d, on the model: every finite Decimal, scientific notation included *)
 Theorem C06_decimal_text_roundtrip : forall d : dec, dec_of_text (str_of_dec d) = Some d.
 Proof. exact dec_text_roundtrip_lemma. Qed.
